@@ -71,25 +71,51 @@ class Grid(col.MutableSequence):
 
     @staticmethod
     def _approx_check(v1, v2):
-        # Check types match
-        if isinstance(v1, datetime.time):
-            return v1.replace(microsecond=0) == v2.replace(microsecond=0)
-        elif isinstance(v1, datetime.datetime):
-            return v1.tzinfo == v2.tzinfo and \
+        # Values of different kinds are never equal
+        if isinstance(v1, datetime.datetime) or isinstance(v2, datetime.datetime):
+            if not (isinstance(v1, datetime.datetime) \
+                    and isinstance(v2, datetime.datetime)):
+                return False
+            # Same zone: the same tzinfo, or (two objects may stand for one
+            # zone, e.g. pytz.utc and Etc/UTC) the same offset from UTC
+            return (v1.tzinfo == v2.tzinfo \
+                    or v1.utcoffset() == v2.utcoffset()) and \
                    v1.date() == v2.date() and \
                    Grid._approx_check(v1.time(), v2.time())
-        elif isinstance(v1, Quantity):
+        elif isinstance(v1, datetime.time) or isinstance(v2, datetime.time):
+            if not (isinstance(v1, datetime.time) \
+                    and isinstance(v2, datetime.time)):
+                return False
+            return v1.replace(microsecond=0) == v2.replace(microsecond=0)
+        elif isinstance(v1, Quantity) or isinstance(v2, Quantity):
+            if not (isinstance(v1, Quantity) and isinstance(v2, Quantity)):
+                return False
             return v1.unit == v2.unit and \
                    Grid._approx_check(v1.value, v2.value)
-        elif isinstance(v1, Coordinate):
+        elif isinstance(v1, Coordinate) or isinstance(v2, Coordinate):
+            if not (isinstance(v1, Coordinate) \
+                    and isinstance(v2, Coordinate)):
+                return False
             return Grid._approx_check(v1.latitude, v2.latitude) and \
                    Grid._approx_check(v1.longitude, v2.longitude)
+        elif isinstance(v1, bool) or isinstance(v2, bool):
+            # A boolean is not a number here, whatever Python thinks
+            return isinstance(v1, bool) and isinstance(v2, bool) \
+                   and (v1 == v2)
         elif isinstance(v1, float) or isinstance(v2, float):
-            return abs(v1 - v2) < 0.000001
+            if not (isinstance(v1, numbers.Number) \
+                    and isinstance(v2, numbers.Number)):
+                return False
+            if (v1 != v1) or (v2 != v2):
+                # NaN: a faithful copy holds NaN in the same place
+                return (v1 != v1) and (v2 != v2)
+            return (v1 == v2) or (abs(v1 - v2) < 0.000001)
         else:
             return v1 == v2
 
     def __eq__(self, other):
+        if not isinstance(other, Grid):
+            return NotImplemented
         if set(self.metadata.keys()) != set(other.metadata.keys()):
             return False
         for key in self.metadata.keys():
@@ -104,6 +130,8 @@ class Grid(col.MutableSequence):
                     len(self.column[col]) != len(other.column[col]):
                 return False
             for key in self.column[col].keys():
+                if key not in other.column[col]:
+                    return False
                 if not Grid._approx_check(self.column[col][key], other.column[col][key]):
                     return False
         # Check row matches
@@ -115,6 +143,15 @@ class Grid(col.MutableSequence):
                 if not Grid._approx_check(ref_row.get(col), parsed_row.get(col)):
                     return False
         return True
+
+    def __ne__(self, other):
+        result = self.__eq__(other)
+        if result is NotImplemented:
+            return result
+        return not result
+
+    # Grids are mutable and compare by content
+    __hash__ = None
 
     @property
     def version(self):  # pragma: no cover
